@@ -219,6 +219,8 @@ func TestCheck(t *testing.T) {
 	rep.Require("rejected_option-for-passthrough", 20)
 	rep.Require("rejected_step-limit-for-component", 20)
 	rep.Require("valid_calls_with_one_option_of_two_value_types", 200)
+	rep.Require("spare_capacity_second_call_started_while_first_held", 50)
+	rep.Require("spare_capacity_caller_slices_with_spare_capacity_checked", 200)
 	n := int64(cfg.Pick(300, 1000))
 	rep.Cases(n, func(idx int64, rng *mon.Rand) {
 		if idx%5 == 3 {
@@ -234,6 +236,10 @@ func TestCheck(t *testing.T) {
 			ifaceOptionCase(ctx, rep, rng.Sub("iface"))
 			for k := 0; k < 3; k++ {
 				componentGapsCase(ctx, rep, rng.Sub(fmt.Sprint("gaps", k)))
+			}
+			// caller-owned option value slices with spare capacity (spare_capacity_test.go)
+			for k := 0; k < cfg.Pick(4, 8); k++ {
+				spareCapacityCase(ctx, rep, rng.Sub(fmt.Sprint("spare", k)))
 			}
 			return
 		}
